@@ -94,7 +94,7 @@ def make_cfg(seed, i, typ):
             if cfg["prob"].get("noise"):
                 cfg["args"]["objfun_has_noise"] = False
     else:
-        cfg = campaign.gen_cfg(rng, deterministic=True, restarts_p=0.3, term_p=0.0, reg_p=0.0, proj_p=0.0, maxfuns=(100, 200),
+        cfg = campaign.gen_cfg(rng, deterministic=True, restarts_p=0.6, term_p=0.0, reg_p=0.0, proj_p=0.0, maxfuns=(100, 200),
                                allow=("restarts", "tols"))
         cfg["args"]["rhoend"] = float(10.0 ** rng.uniform(-5, -2)) * (cfg["args"].get("rhobeg") or 0.1)
     return cfg
@@ -170,7 +170,7 @@ def check(run, cfg, res, tag):
             anyfinite = any(np.isfinite(t["obj"]) for t in tab.values())
             viol.append(V("success-with-nonfinite-objective", "flag 0 ('%s') with obj=%r (%s)" % (
                 s.msg, float(s.obj), "a finite point exists in the history" if anyfinite else "no finite point anywhere in the history"),
-                known=(None if anyfinite else "success-flag-with-no-finite-point-in-history"), obj=s.obj, message=s.msg))
+                known=oracles.d22_key(run, cfg, anyfinite), obj=s.obj, message=s.msg))
     fe = oracles.final_exit(run)
     if fe:
         key = "%s|%s|%s" % (fe[2], fe[0], fe[1][:40])
@@ -217,6 +217,15 @@ def run_case(case):
                 one_run(c2, res, "NaN at call %d of %d" % (k, nf))
                 nder += 1
                 res["stats"]["fault_runs"] = res["stats"].get("fault_runs", 0) + 1
+    if typ == "fault" and ref.exc is None:
+        # no finite value anywhere (from the first or the second call on), under whatever restart mode the configuration has
+        for k0, kind in ((1, "nan_all"), (2, "nan")):
+            c2 = copy.deepcopy(cfg)
+            c2["persistent"] = [k0, kind]
+            c2["args"]["maxfun"] = 60
+            one_run(c2, res, "%s persisting from call %d (%s restarts)" % (kind, k0, campaign.restart_mode(cfg)))
+            nder += 1
+            res["stats"]["persistent_fault_runs"] = res["stats"].get("persistent_fault_runs", 0) + 1
     if typ == "failpoint" and ref.exc is None:
         L = ref.ctx.extra.get("lagrange_calls", 0)
         js = sorted(set(int(v) for v in np.unique(np.linspace(1, max(L, 1), 10).astype(int)))) if L else []
